@@ -1116,6 +1116,12 @@ EXTRACTORS["C03"] = EXTRACTORS["C03"] + [SOFT_LCP]
 TRANSLATOR_MODULES.append("rs2lean_genalign")
 GEN_SRC.update({n: gen_src(n) for n in ("SrcPwTypes", "SrcPwModes", "SrcPwCustom")})
 EXTRACTORS["C01"] = EXTRACTORS["C01"] + [GEN_SRC[n] for n in ("SrcPwTypes", "SrcPwModes", "SrcPwCustom")]
+# genalign: the exact code equality of the main-loop cell with the mirror the driver runs (pinned order of the S candidates) is
+# soft: a property-preserving change of that order (seeded C01-H4) is a note; the hard obligation is cell_update_any_order
+SOFT_PWCELL = soft_modules(["RbV.Thm.GenSrcPwCustomExact"], "the main-loop cell of Aligner::custom no longer compares the candidates of "
+                           "S(i,j) in the order of the mirror stepJC (values and admissible codes are checked separately: "
+                           "cell_update_source_values_and_admissible_codes)")
+EXTRACTORS["C01"] = EXTRACTORS["C01"] + [SOFT_PWCELL]
 # genband: the band construction and the entry-point glue of the banded aligner (C02) — dialect "band" of
 # tools/rs2lean_genband.py; Thm/C02.lean imports RbV.Thm.GenSrcBand* and restates the theorems.  The wrapper hands the tree
 # under test to the module (struct declarations pinned in pairwise/mod.rs and sparse.rs).
